@@ -28,8 +28,8 @@ LVL = {"catNames": False, "resultName": True}
 class FragmentGen(G.SheetGen):
     """Sheets inside the fragment of the universal theorem (Lean: CoreSheet.inFragment, Props/C02.C02_fragment):
     action rows, wait_for_response / split_by_value / split_by_group rows, start_new_flow / call_webhook /
-    transfer_airtime / split_random rows, go_to and hard/loose exit rows; action rows are left
-    unconditionally, conditions leaving a wait row name no variable, no edge carries a category name, tests
+    transfer_airtime / split_random rows, go_to and hard/loose exit rows; the conditions leaving one action row name the
+    same variable (or none), conditions leaving a wait row name no variable, no edge carries a category name, tests
     leaving one row are distinct.  Whether a sheet really is in the fragment is decided by the Lean predicate
     (driver op core.views), not by this generator."""
 
@@ -37,8 +37,6 @@ class FragmentGen(G.SheetGen):
                     "start_new_flow", "call_webhook", "transfer_airtime", "split_random"]
 
     def _edge_for(self, src):
-        if src["type"] in G.ACTION_TYPES:
-            return {"value": "", "variable": "", "type": "", "name": ""}
         if src["type"] == "split_random":
             # named buckets (by value or by category name; a repeated name redirects the bucket) and unnamed ones
             r = self.rng.random()
